@@ -232,7 +232,10 @@ def r7(ctx):
     ctx.ob("set_mask stores mask", ok_m, "set_mask does not unconditionally store its argument into self.mask", site=body.get("def_span"))
     ctx.ob("set_mask rewinds", ok_i, "set_mask does not unconditionally reset self.index to 0", site=body.get("def_span"))
     loops = c.loops()
-    ctx.ob("set_mask compacts", len(loops) == 1 and any(t["f"].get("fn", "").endswith("mem::swap") for _, t in P.calls(key)), "set_mask has no compaction loop (swap of non-empty entries to the front)",
+    # compaction: one loop over the entries that swaps (mem::swap through pointers, or slice::swap by index) the non-empty ones to the front
+    swaps = [t["f"].get("fn", "") for _, t in P.calls(key) if t["f"].get("fn", "").endswith("mem::swap") or t["f"].get("fn", "").endswith("]>::swap")]
+    in_loop = any(bi in bl for bl in loops.values() for bi, t in P.calls(key) if t["f"].get("fn", "") in swaps)
+    ctx.ob("set_mask compacts", len(loops) == 1 and bool(swaps) and in_loop, "set_mask has no compaction loop (swap of non-empty entries to the front)",
            site=body.get("def_span"))
 
 
@@ -329,7 +332,8 @@ def r10(ctx):
                 while isinstance(x, tuple) and x and x[0] in ("ref", "proj"):
                     x = x[1]
             srcs.append(x)
-    whole = srcs == [("place", "self", ("d", "moves"))] and not sliced and len(loops) == 1
+    each = [(bi, t) for bi, t in P.calls(key) if "Iterator>::for_each::<" in t["f"].get("fn_args", "")]
+    whole = srcs == [("place", "self", ("d", "moves"))] and not sliced and (len(loops) == 1 or (not loops and len(each) == 1))
     ctx.ob("remove range", whole, f"remove iterates over {srcs} (range indexing: {sliced[:1]}); it must cover the whole list: entries before the cursor are handed out again after set_mask rewinds",
            site=site, sample={"source": str(srcs)})
     # per-entry effect on every generic iteration: entry.moves := entry.moves & !mask (whatever operator spells it)
@@ -357,6 +361,59 @@ def r10(ctx):
                     o = ("field", old, "0") if val[0] == "adt" else old
                     writes.append(canon(w) == canon(("bin", "BitAnd", o, ("un", "Not", mask_w))))
         ok &= writes == [True]
+    if not lps and len(each) == 1:
+        # iterator form: self.moves.iter_mut().for_each(|e| e.moves = e.moves & !mask): the closure is the per-entry step
+        cks = [k_ for k_ in P.fns if k_.startswith(key + "::{closure")]
+        caps = []
+        for blk in body["blocks"]:
+            for s in blk["s"]:
+                r = s.get("r", {})
+                if r.get("k") == "agg" and r.get("ak") == "closure":
+                    caps = [k2.describe_operand(P, body, o) for o in r["ops"]]
+        k2.EXPAND_NAMED[0] = True
+        try:
+            for blk in body["blocks"]:
+                for s in blk["s"]:
+                    r = s.get("r", {})
+                    if r.get("k") == "agg" and r.get("ak") == "closure":
+                        caps = [k2.describe_operand(P, body, o) for o in r["ops"]]
+        finally:
+            k2.EXPAND_NAMED[0] = False
+        cap0 = caps[0] if len(caps) == 1 else None
+        while isinstance(cap0, tuple) and cap0 and cap0[0] in ("ref", "proj"):
+            cap0 = cap0[1]
+        mask_sym = ("field", ("param", 1, "a1"), "0")
+        cap_val = None                      # what the captured word is, in terms of remove's own `mask`
+        if cap0 == ("place", "a1", ()):
+            cap_val = mask_sym
+        elif isinstance(cap0, tuple) and cap0 and cap0[0] == "call" and cap0[1].endswith("Not for chess_bitboard::BitBoard>::not") and cap0[2] and cap0[2][0] == ("place", "a1", ()):
+            cap_val = ("un", "Not", mask_sym)
+        ok = len(cks) == 1 and cap_val is not None
+        if ok:
+            ce = T.Engine(P)
+            clv = ce.tabulate(cks[0])
+            cb = P.body(cks[0])
+            env, item = ("param", 0, cb["locals"][1]["n"]), ("param", 1, cb["locals"][2]["n"])
+            ok = len(clv) == 1
+            for lf in clv:
+                v_ = lf.ext.get(item)
+                base, ents = upd_entries(ce.freeze(lf.state, v_)) if v_ is not None else (None, [])
+                ws = []
+                for pth, val in ents:
+                    names = [e[2] for e in pth if e[0] == "f"]
+                    if names[-1:] == ["moves"] or names[-2:] == ["moves", "0"]:
+                        old_ = T.get_path(base, pth)
+                        w = val[3][0] if val[0] == "adt" else val
+                        o = ("field", old_, "0") if val[0] == "adt" else old_
+                        # the captured mask: field 0 of the closure environment (by value or by reference)
+                        cands = [("field", ("field", env, 0), "0"), ("field", ("obj", ("field", env, 0)), "0"), ("field", ("field", ("obj", env), 0), "0"), ("field", ("obj", ("field", ("obj", env), 0)), "0")]
+                        def subst(x, m_):
+                            if x == m_:
+                                return cap_val
+                            return tuple(subst(y, m_) if isinstance(y, tuple) else y for y in x) if isinstance(x, tuple) else x
+                        ws.append(any(canon(subst(w, m_)) == canon(("bin", "BitAnd", o, ("un", "Not", mask_sym))) for m_ in cands))
+                ok &= ws == [True]
+            n_some = 1
     ctx.ob("remove effect", ok and n_some >= 1, "remove does not turn each visited entry's `moves` into `moves & !mask`", site=site)
 
 
@@ -406,8 +463,8 @@ def r9(ctx):
                     idx_written = canon(val) == canon(("bin", "Add", ("field", slf, "index"), T.I(1, "usize")))
                     if not idx_written:
                         bad.append((f"path{li}:index", f"the cursor becomes {T.show(val)[:80]}"))
-                if k_ != ("param", 0, "self") and names == ["moves"] and any(e[0] == "i" for e in pth):
-                    N = val[3][0] if val[0] == "adt" else val
+                if k_ != ("param", 0, "self") and names[-1:] == ["moves"] and val[0] not in ("loopvar", "mutated"):
+                    N = val[3][0] if val[0] == "adt" else val            # the entry reached by indexing, or handed out by get_mut
         fu = [s_ for s_ in subterms(lf.ret) if s_[0] == "app" and s_[1].endswith("Pos::from_u8")]
         if len(fu) != 1:
             raise AnchorError("next(): the yielded destination is not Pos::from_u8(..) of a bit index")
